@@ -1509,6 +1509,8 @@ class Executor:
         if isinstance(e.slice, ast.Slice):
             return self.slice(cont, e.slice, frame)
         key = self.eval(e.slice, frame)
+        if isinstance(cont, VMap) and isinstance(key, VOpt) and not isinstance(cont.key, OptS):
+            key = key.val()         # None as a key of this dict is outside the model (path condition rules it out)
         if isinstance(cont, VMap):
             if getattr(self, '_pure', 0):
                 # inside a comprehension (bound index variable): no forking; the raise condition is collected
